@@ -255,6 +255,8 @@ structure AnsLine where
   answers : List String
   /-- enumeration entries with the greatest start `≤` the claimed relative address (fixtures) -/
   nb : Option (List EnumItem)
+  /-- next enumerated start above the claimed relative address (fixtures) -/
+  nx : Option Nat := none
 
 def parseNb (s : String) : Option (List EnumItem) :=
   match words s with
@@ -281,7 +283,10 @@ def parseAnsLine (l : String) : Option AnsLine :=
         let nb := match extra with
           | n :: _ => parseNb n
           | [] => none
-        some ⟨f, a, answers, nb⟩
+        let nx := match extra with
+          | _ :: x :: _ => (match words x with | ["nx", v] => v.toNat? | _ => none)
+          | _ => none
+        some ⟨f, a, answers, nb, nx⟩
     | _ => none
   | [] => none
 
@@ -411,6 +416,63 @@ def judgeEnum (kind : String) (o : ObjOps) (rest : List String) (en : List EnumI
       | some p => some s!"[enum] enumeration lists '{p.1}' where the file prescribes '{p.2}'"
       | none => some s!"[enum] enumeration has {got.length} entries, the file prescribes {want.length}"
 
+/-- the answered range does not reach into the next enumerated symbol (object files, jitdump; a Breakpad FUNC
+and a PDB procedure report the size their file states) -/
+def judgeOverlap (en : List EnumItem) (al : AnsLine) : Option String :=
+  match al.answers with
+  | [one] =>
+    match parseAns one with
+    | some (.hit (start, some n, _)) =>
+      match al.nb with
+      | some _ =>
+        match al.nx with
+        | some x => if x < start + n then some s!"[overlap] answer {start}+{n} for {al.form} {al.addr} reaches past the next symbol at {x}" else none
+        | none => none
+      | none =>
+        match en.find? (fun e => start < e.addr ∧ e.addr < start + n) with
+        | some e => some s!"[overlap] answer {start}+{n} for {al.form} {al.addr} reaches past the next symbol at {e.addr}"
+        | none => none
+    | _ => none
+  | _ => none
+
+/-- Breakpad: a FUNC answer carries the size of its record, a PUBLIC answer the distance to the next symbol
+address (nothing if it is the last); jitdump: the answer is a record of the file with its code length -/
+def bpRecsOf (rest : List String) : List (Nat × Option Nat) :=
+  rest.filterMap fun l =>
+    match words l with
+    | ["func", a, sz, _] => some (nat! a, some (nat! sz))
+    | ["pub", a, _] => some (nat! a, none)
+    | _ => none
+
+def jitRecsOf (rest : List String) : List (Nat × Nat × String) :=
+  let en := jitExpectedEnum rest
+  let lens := rest.filterMap fun l =>
+    match words l with
+    | ["load", len, _] => some (nat! len)
+    | _ => none
+  (en.zip lens).map fun p => (p.1.1, p.2, bytesHex p.1.2)
+
+def judgeRecord (kind : String) (recs : List (Nat × Option Nat)) (jrecs : List (Nat × Nat × String)) (al : AnsLine) :
+    Option String :=
+  match al.answers with
+  | [one] =>
+    match parseAns one with
+    | some (.hit (start, size, name)) =>
+      if kind = "bp" then
+        match recs.find? (fun r => r.1 = start) with
+        | none => some s!"[record] answer start {start} is no record of the file"
+        | some (_, some sz) => if size = some sz then none else some s!"[record] FUNC at {start} has size {sz}, answered {size}"
+        | some (_, none) =>
+          let next := (recs.map (·.1)).foldl (fun acc a => if start < a then (match acc with | none => some a | some m => some (min m a)) else acc) none
+          let want := next.map (· - start)
+          if size = want then none else some s!"[record] PUBLIC at {start}: size should be {want}, answered {size}"
+      else if kind = "jit" then
+        if jrecs.any (fun p => p.1 = start ∧ some p.2.1 = size ∧ p.2.2 = name ∧ 0 < p.2.1) then none
+        else some s!"[record] answer {start} {size} {name} is no code record of the file"
+      else none
+    | _ => none
+  | _ => none
+
 /-- no answer may extend across an address at which the file says a function or text section ends -/
 def judgeExtent (ends : List Nat) (al : AnsLine) : Option String :=
   match al.answers with
@@ -487,10 +549,14 @@ def judge (ops impl : List String) : Bool × String :=
     let als := impl.filterMap parseAnsLine
     if als.length ≠ qs.length then (false, s!"{als.length} answer lines for {qs.length} queries") else
     let ends := if kind = "obj" then objKnownEnds o else []
+    let bpRecs := if kind = "bp" then bpRecsOf rest else []
+    let jitRecs := if kind = "jit" then jitRecsOf rest else []
     match judgeEnum kind o rest en with
     | some why => (false, why)
     | none =>
-    match (qs.zip als).findSome? (fun p => (judgeQuery checkNames en p.1 p.2).orElse fun _ => judgeExtent ends p.2) with
+    match (qs.zip als).findSome? (fun p => ((judgeQuery checkNames en p.1 p.2).orElse fun _ => judgeExtent ends p.2).orElse fun _ =>
+        ((if kind = "bp" ∨ (fixture ∧ kw.getD 2 "" = "pdb") then none else judgeOverlap en p.2).orElse fun _ =>
+          judgeRecord kind bpRecs jitRecs p.2)) with
     | some why => (false, why)
     | none =>
       -- address forms: all lookups that stand for the same relative address have the same answer
